@@ -686,16 +686,19 @@ func main() {
 		var w struct {
 			Property string `json:"property"`
 			Replay   struct {
-				Engine  string  `json:"engine"`
-				Case    cutCase `json:"case"`
-				History string  `json:"history"`
-				Gating  bool    `json:"gating"`
+				Engine  string   `json:"engine"`
+				Case    cutCase  `json:"case"`
+				History string   `json:"history"`
+				Gating  bool     `json:"gating"`
+				Slow    slowCase `json:"slow"`
 			} `json:"replay"`
 		}
 		json.Unmarshal(b, &w)
 		var v []string
 		if w.Replay.Engine == "cuts" {
 			v, _ = runCut(w.Replay.Case)
+		} else if w.Replay.Engine == "slowcfg" {
+			v, _ = runSlow(w.Replay.Slow)
 		} else {
 			v, _, _ = runHistory(w.Replay.History, w.Replay.Gating)
 		}
@@ -716,6 +719,9 @@ func main() {
 	case "histories":
 		res.Rule = "every sequence of length <= 4 (5 thorough) over {Start, Stop, Wait, peer drop, release held notification} containing a Start, replayed on a fresh stub, in two modes (notification delivered immediately / held at a gate until released), each step checked against a reference model of the session state"
 		engineHistories(f, res)
+	case "slowcfg":
+		res.Rule = "the session is lost (peer drop / runtime request timeout) while the plugin's Configure handler is still running; every combination of loss mode x stale handler result (nil / error) x time at which the stale handler returns (before the restart / while the restart waits for its own configuration / after the restart completed); oracle: Start #1 fails within the horizon, Start #2 returns neither success nor failure while its own session's Configure handler is held, then succeeds, the plugin receives events, and a third session is not handed the stale result either"
+		engineSlowCfg(f, res)
 	default:
 		rep.Fatal(f, "unknown engine")
 	}
